@@ -379,6 +379,13 @@ func (fv *FuncVC) builtin(v ssa.Value, b *ssa.Builtin, cc *ssa.CallCommon, pos t
 	case "recover":
 		t := fv.freshWF("recovered", v.Type())
 		t.Go = v.Type()
+		if fv.C != nil && fv.C.Flags["errorpanic"] != "" {
+			// every explicit panic of the swept functions carries an error (obligation errorpanic),
+			// and run-time panics are runtime.Error values, which are errors too
+			fv.declareFun("impl_error", []string{"Int"}, "Bool")
+			fv.assume(smtOr(app("=", app("Iface_tag", t.S), "0"), app("impl_error", app("Iface_tag", t.S))))
+			fv.trustedUse["recover() in the decoder yields nil or an error value (explicit panics carry errors: checked; panics raised by the caller's io.Writer are outside the statement)"] = true
+		}
 		fv.vals[v] = Val{T: t}
 	case "min", "max":
 		x, y := fv.term(cc.Args[0]), fv.term(cc.Args[1])
